@@ -11,3 +11,4 @@ CFG = dict(
                 "terminal error class, close counts). Exhaustive for limits 0..5 x all chunk compositions; sampled beyond. No absence claim.",
      level_note="Trusts the Go runtime, rapid, and the harness' scripted reader (which obeys the io.Reader contract).",
      timeout_quick=300, timeout_thorough=1800)
+CFG["rule"] += ' Added after independently written breaking changes: Source errors are sticky or one-shot (reported by one Read call only), alone or with data.'
